@@ -99,25 +99,35 @@ Definition format_name_tags (name : str) (tags : list str) : str :=
                  (influx_groups tags))
   ++ [c_space].
 
-(* ---- the line of each series.  An item: it_name = "measurement,tags " as written,
-   it_kind = the timestamp, it_vals = the fields in order, each value as printed. *)
+(* ---- the line of each series.  A pre-line is (measurement, tags, fields in order with each value
+   as printed); an item: it_name = "measurement,tags " as written, it_kind = the timestamp,
+   it_vals = the fields. *)
+Definition ipre : Type := str * list str * list (str * str).
+Definition influx_item (now : Z) (p : ipre) : item :=
+  let '(name, tags, fields) := p in
+  MkItem (format_name_tags name tags) (dec_Z now) [] [] (map (fun f => (fst f, VS (snd f))) fields).
+(* the bytes of a line *)
+Definition influx_print (now : Z) (p : ipre) : str :=
+  let '(name, tags, fields) := p in
+  format_name_tags name tags
+  ++ join c_comma (map (fun f => fst f ++ c_eq :: snd f) fields)
+  ++ c_space :: dec_Z now ++ [c_nl].
+
 Section WithPrinters.
   Variable fmt_g : Z -> str.      (* fmt.Sprintf("%g", v) *)
   Variable fmt_s : Z -> str.      (* strconv.FormatFloat(v, 'f', -1, 64) *)
 
   Definition k_rate : str := n_rate.
   Definition k_le_dot : str := [108;101;46].
-  Definition influx_item (now : Z) (name : str) (tags : list str) (fields : list (str * str)) : item :=
-    MkItem (format_name_tags name tags) (dec_Z now) [] [] (map (fun f => (fst f, VS (snd f))) fields).
   Definition pr (v : val) : str :=
     match v with VI z => dec_Z z | VF b => fmt_g b | VS s => s end.
 
-  Definition influx_counter (now : Z) (c : fcounter) : list item :=
-    [ influx_item now (fc_name c) (fc_tags c) [(n_count, dec_Z (fc_value c)); (k_rate, fmt_g (fc_ps c))] ].
-  Definition influx_gauge (now : Z) (g : fgauge) : list item :=
-    [ influx_item now (fg_name g) (fg_tags g) [(n_value, fmt_g (fg_value g))] ].
-  Definition influx_set (now : Z) (s : fset) : list item :=
-    [ influx_item now (fs_name s) (fs_tags s) [(n_count, dec_Z (Z.of_nat (length (fs_members s))))] ].
+  Definition influx_counter (c : fcounter) : list ipre :=
+    [ (fc_name c, fc_tags c, [(n_count, dec_Z (fc_value c)); (k_rate, fmt_g (fc_ps c))]) ].
+  Definition influx_gauge (g : fgauge) : list ipre :=
+    [ (fg_name g, fg_tags g, [(n_value, fmt_g (fg_value g))]) ].
+  Definition influx_set (s : fset) : list ipre :=
+    [ (fs_name s, fs_tags s, [(n_count, dec_Z (Z.of_nat (length (fs_members s))))]) ].
   (* addBaseTimer: field names differ from the other backends' suffixes *)
   Definition influx_timer_fields (mk : mask) (t : ftimer) : list (str * str) :=
     map (fun x => (snd (fst x), pr (snd x)))
@@ -128,30 +138,26 @@ Section WithPrinters.
              (d_stddev mk, n_stddev, VF (ft_stddev t)); (d_sum mk, n_sum, VF (ft_sum t));
              (d_sumsq mk, n_sum_squares, VF (ft_sumsq t)) ])
     ++ map (fun p => (fst p, fmt_g (snd p))) (ft_pcts t).
-  Definition influx_timer (mk : mask) (now : Z) (t : ftimer) : list item :=
+  Definition influx_timer (mk : mask) (t : ftimer) : list ipre :=
     match ft_hist t with
     | None =>
         match influx_timer_fields mk t with
         | [] => []                                   (* "if sb.Len() == 0 { return }" *)
-        | fs => [ influx_item now (ft_name t) (ft_tags t) fs ]
+        | fs => [ (ft_name t, ft_tags t, fs) ]
         end
     | Some [] => []
     | Some h =>
-        [ influx_item now (ft_name t) (ft_tags t)
-            (map (fun b => (k_le_dot ++ (if (fst b =? inf_bits)%Z then s_plus_inf else fmt_s (fst b)),
-                            dec_Z (snd b))) h) ]
+        [ (ft_name t, ft_tags t,
+           map (fun b => (k_le_dot ++ (if (fst b =? inf_bits)%Z then s_plus_inf else fmt_s (fst b)),
+                          dec_Z (snd b))) h) ]
     end.
 
-  (* processMetrics' order: counters, timers, gauges, sets; one line per item *)
+  (* processMetrics' order: counters, timers, gauges, sets; one line per pre-line *)
+  Definition influx_pres (mk : mask) (m : fmap) : list ipre :=
+    concat (map influx_counter (fm_counters m)) ++ concat (map (influx_timer mk) (fm_timers m))
+    ++ concat (map influx_gauge (fm_gauges m)) ++ concat (map influx_set (fm_sets m)).
   Definition influx_items (mk : mask) (now : Z) (m : fmap) : list item :=
-    concat (map (influx_counter now) (fm_counters m)) ++ concat (map (influx_timer mk now) (fm_timers m))
-    ++ concat (map (influx_gauge now) (fm_gauges m)) ++ concat (map (influx_set now) (fm_sets m)).
+    map (influx_item now) (influx_pres mk m).
   Definition influx_payloads (pb : N) (mk : mask) (now : Z) (m : fmap) : list (list item) :=
     influx_batches pb (influx_items mk now m).
-
-  (* the bytes of a line *)
-  Definition influx_line (it : item) : str :=
-    it_name it
-    ++ join c_comma (map (fun f => fst f ++ c_eq :: match snd f with VS s => s | _ => [] end) (it_vals it))
-    ++ c_space :: it_kind it ++ [c_nl].
 End WithPrinters.
